@@ -205,6 +205,19 @@ def run():
                     note('plate-scale-misses-concentration', f'{cstock} {vstock} -> {ctgt} {vtgt}: holds {got!r} {cu}')
                 if not close(r.volume, float(vtgt.split()[0]), 1e-6, 0):
                     note('plate-scale-misses-total', f'{cstock} {vstock} -> {ctgt} {vtgt}: holds {r.volume!r} uL')
+            if PID == 'C05':
+                # a solvent CONTAINER at dispenser scale (nanolitres)
+                for vs, tq, c in ((f'{40 + v} nL', '20 nL', 5.0), (f'{2 + v} uL', '1 uL', 10.0)):
+                    count += 1
+                    sv = Container('sv', initial_contents=[(water, vs), (dmso, vs)])
+                    try:
+                        _, r = Container.create_solution(salt, sv, 'y', concentration=f'{c} mM', total_quantity=tq)
+                    except ValueError as e:
+                        note('solvent-container-refused', f'{vs} solvent, {c} mM, {tq}: {e}')
+                        continue
+                    got = r.contents[salt] / r.volume * 1000
+                    if not close(got, c, 1e-6, 0):
+                        note('solvent-container-misses-concentration', f'{vs} water+dmso each, {c} mM, {tq}: holds {got!r} mM')
     return {'ok': True, 'count': count, 'failures': fails}
 '''
 
